@@ -4,6 +4,7 @@ package main
 
 import (
 	"encoding/binary"
+	"fmt"
 
 	"github.com/nspcc-dev/neo-go/pkg/vm/opcode"
 )
@@ -159,6 +160,14 @@ func corpus() []*caseProg {
 	// (CALL 512 + 113 NOP) * 16 = 10000 picoGAS = 1 datoshi; with one more NOP it faults inside the callee
 	cs = append(cs, &caseProg{scripts: [][]byte{asm(opcode.CALL, 3, opcode.RET, rep(opcode.NOP, 113), opcode.RET)}, gasLimit: 1, base: 16, kind: "corpus:gas-exact-nested"})
 	cs = append(cs, &caseProg{scripts: [][]byte{asm(opcode.CALL, 3, opcode.RET, rep(opcode.NOP, 114), opcode.RET)}, gasLimit: 1, base: 16, kind: "corpus:gas-over-nested"})
+	// boundaries of narrow integers: 255/256/257 elements through NEWARRAY / UNPACK / PACK / REVERSEN, the biggest
+	// slots a one-byte operand allows, the last slot index
+	for _, n := range []int{255, 256, 257} {
+		cs = append(cs, mk(fmt.Sprintf("pack-%d", n), bigGas, asm(opcode.PUSHINT16, byte(n), byte(n>>8), opcode.NEWARRAY, opcode.UNPACK, opcode.DUP, opcode.REVERSEN,
+			opcode.PUSHINT16, byte(n), byte(n>>8), opcode.PACK, opcode.DUP, opcode.PUSHINT16, byte(n-1), byte((n-1)>>8), opcode.PUSH7, opcode.SETITEM, opcode.VALUES, opcode.SIZE, opcode.RET)))
+	}
+	cs = append(cs, mk("slots-255", bigGas, asm(opcode.INITSSLOT, 255, opcode.INITSLOT, 255, 0, opcode.NEWARRAY0, opcode.DUP, opcode.STLOC, 254, opcode.STSFLD, 254,
+		opcode.LDLOC, 254, opcode.LDSFLD, 254, opcode.EQUAL, opcode.RET)))
 	// what the limits prescribe for the boundary cases
 	want := map[string][2]any{
 		"corpus:try-16": {"HALT", 17}, "corpus:try-17": {"FAULT", 17},
@@ -167,6 +176,7 @@ func corpus() []*caseProg {
 		"corpus:newarray-2047": {"HALT", 3}, "corpus:newarray-2048": {"FAULT", 2},
 		"corpus:int-overflow": {"FAULT", 2}, "corpus:int-min": {"FAULT", 2}, "corpus:int-min-negate": {"FAULT", 2},
 		"corpus:shl-256": {"FAULT", 5}, "corpus:cat-too-big": {"FAULT", 5}, "corpus:newbuffer-max+1": {"FAULT", 2},
+		"corpus:pack-255": {"HALT", 0}, "corpus:pack-256": {"HALT", 0}, "corpus:pack-257": {"HALT", 0}, "corpus:slots-255": {"HALT", 0},
 		"corpus:newbuffer-max": {"HALT", 3}, "corpus:cat-exact-max": {"HALT", 10},
 		"corpus:gas-exact": {"HALT", 101}, "corpus:gas-zero": {"FAULT", 1}, "corpus:gas-over": {"FAULT", 100}, "corpus:gas-syscall": {"FAULT", 1},
 		"corpus:setitem-compound-key": {"FAULT", 5}, "corpus:setitem-compound-key-array": {"FAULT", 6}, "corpus:packmap-compound-key": {"FAULT", 6},
